@@ -38,6 +38,10 @@ func init() {
 					return ""
 				})
 			}
+			// if-then-else, fail and nondeterministic goals as alternatives of every bracketing of a disjunction, in every placement
+			dj := c.mcHolds("GenDisj", "GenDisj.cfg", tlcOpts{})
+			dc, dr := c.replay("engine", dj.cases, replayOpts{})
+			c.judge("engine", dc, dr, func(cs, res map[string]J) string { in, _ := res["input"].(string); return in })
 			c.engineTV(tvN(c), "cut")
 			c.exhaustive = true
 		},
@@ -116,6 +120,12 @@ func init() {
 				}
 				return ""
 			})
+			// witnesses that are lists, the tables loaded as written and with every other list built in pieces by the clause body
+			rl := c.mcHolds("GenBag", "GenBag_lists.cfg", tlcOpts{})
+			for _, o := range []map[string]string{nil, {"pieces": "1"}} {
+				lc, lr := c.replay("engine", rl.cases, replayOpts{opts: o})
+				c.judge("engine", lc, lr, func(cs, res map[string]J) string { in, _ := res["input"].(string); return in + fmt.Sprint(o) })
+			}
 			c.engineTV(tvN(c), "bag")
 			c.exhaustive = true
 		},
@@ -142,6 +152,10 @@ func init() {
 				}
 				return ""
 			})
+			// every bracketing of a disjunction of three or four alternatives in every placement (GenDisj.tla)
+			dj := c.mcHolds("GenDisj", "GenDisj.cfg", tlcOpts{})
+			cases, results = c.replay("engine", dj.cases, replayOpts{})
+			c.judge("engine", cases, results, func(cs, res map[string]J) string { in, _ := res["input"].(string); return in })
 			// the data side: every (clause argument shape, call argument shape) pair under four fixed control structures
 			h := c.mcHolds("GenHead", "GenHead.cfg", tlcOpts{})
 			cases, results = c.replay("engine", h.cases, replayOpts{})
